@@ -41,7 +41,7 @@ func init() {
 		Run:         runC07,
 		Floors: func(tier string) map[string]int {
 			return map[string]int{"ops_judged": 1500, "refused_readonly": 300, "demotions_mid_tx": 10, "write_refused_after_loss": 5, "demotion_then_commit_refused": 8, "import_waiting_at_demotion": 4, "import_raced_by_demotion": 4, "import_refused": 10,
-				"state_connected": 5, "state_disconnected": 5, "state_never-connected": 5, "state_former-halt-holder": 5, "op_dbwrite": 50, "op_journal-create": 50, "op_wal-write": 30, "op_db-unlink": 30, "op_journal-unlink": 10}
+				"state_connected": 5, "state_disconnected": 5, "state_never-connected": 5, "state_former-halt-holder": 5, "state_former-primary-handoff": 5, "op_dbwrite": 50, "op_journal-create": 50, "op_wal-write": 30, "op_db-unlink": 30, "op_journal-unlink": 10}
 		},
 	})
 }
@@ -102,10 +102,10 @@ func runC07(c *core.Case) {
 
 func c07A(c *core.Case) {
 	wal := (c.Index/3)%2 == 1
-	state := []string{"connected", "disconnected", "never-connected", "former-halt-holder"}[(c.Index/6)%4]
+	state := []string{"connected", "disconnected", "never-connected", "former-halt-holder", "former-primary-handoff"}[(c.Index/6)%5]
 	c.Count("state_"+state, 1)
 	ps := uint32(1024)
-	cl, err := cluster.New(c.Dir, []cluster.NodeOpts{{Candidate: true}, {}})
+	cl, err := cluster.New(c.Dir, []cluster.NodeOpts{{Candidate: true}, {Candidate: state == "former-primary-handoff"}})
 	if err != nil {
 		c.Inconclusive(err.Error())
 		return
@@ -187,6 +187,36 @@ func c07A(c *core.Case) {
 				c.Violate("C07/still-halt-holder-after-release", "the replica still holds the remote halt lock after releasing it", nil)
 			}
 		}
+		if state == "former-primary-handoff" {
+			// the node under test is the former primary: it handed its lease to the
+			// other node and follows it now
+			hctx, cancel := context.WithTimeout(context.Background(), 10*time.Second)
+			err := cl.Nodes[0].Store.Handoff(hctx, cl.Nodes[1].Store.ID())
+			cancel()
+			if err != nil {
+				c.Inconclusive("handoff: " + err.Error())
+				return
+			}
+			// (the lease service's record decides who the primary is)
+			for dl := time.Now().Add(10 * time.Second); time.Now().Before(dl); time.Sleep(2 * time.Millisecond) {
+				if h, _ := cl.Svc.Holder(); h == "n1" {
+					break
+				}
+			}
+			if h, _ := cl.Svc.Holder(); h != "n1" {
+				c.Inconclusive("the lease service does not record n1 as holder")
+				return
+			}
+			for dl := time.Now().Add(10 * time.Second); !cl.Nodes[1].Store.IsPrimary() && time.Now().Before(dl); {
+				time.Sleep(2 * time.Millisecond)
+			}
+			if !cl.Nodes[1].Store.IsPrimary() {
+				c.Inconclusive("the handoff target did not become primary")
+				return
+			}
+			R = cl.Nodes[0]
+			_ = cl.WaitConnected(0, 3*time.Second)
+		}
 		if state == "disconnected" {
 			cl.Nodes[0].Proxy.SetMode("refuse")
 			cl.Nodes[0].Proxy.Cut()
@@ -194,7 +224,9 @@ func c07A(c *core.Case) {
 		}
 	}
 	n := R.Node
-	if n.Store.IsPrimary() {
+	if n.Store.IsPrimary() && state != "former-primary-handoff" {
+		// (after a handoff the lease service's record says who the primary is;
+		// what the former primary then still accepts is judged below)
 		c.Inconclusive("replica is primary?")
 		return
 	}
